@@ -3,7 +3,7 @@
 seed=$1; prop=${2:-${seed%%_*}}
 scr=$(mktemp -d /tmp/seedscr.XXXXXX)
 cp -r /repo/esrally $scr/ && cp -r /repo/docs $scr/ 2>/dev/null
-(cd $scr && patch -p1 -s < /verif/seeded/$seed/patch.diff) || { echo "patch failed"; rm -rf $scr; exit 9; }
+pf=/verif/seeded/$seed/patch.diff; [ -f /verif/seeded/$seed/patch_on_fixed.diff ] && pf=/verif/seeded/$seed/patch_on_fixed.diff; (cd $scr && patch -p1 -s < $pf) || { echo "patch failed"; rm -rf $scr; exit 9; }
 cd /verif && ./check $prop --repo $scr 2>&1 | grep -v "^  C[0-9]*/" | tail -${TAILN:-6}
 rc=${PIPESTATUS[0]}
 rm -rf $scr
